@@ -48,3 +48,49 @@ def sir_scenarios(seed, n_random, sizes=(3, 4), exhaustive2=True, dvals=(0, 1, 2
 
 def fl(x):
     return float("inf") if x >= INF else float(x)
+
+
+def sis_scenarios(seed, n_random, sizes=(2, 3, 4), unsorted_frac=0.0):
+    rng = pyrandom.Random(seed + 7919)
+    out = []
+    for _ in range(n_random):
+        n = rng.choice(sizes)
+        p = rng.choice([0.5, 0.8, 1.0])
+        adj = [[0] * n for _ in range(n)]
+        for u in range(n):
+            for v in range(u + 1, n):
+                if rng.random() < p:
+                    adj[u][v] = adj[v][u] = 1
+        init = ["S"] * n
+        for u in rng.sample(range(n), rng.choice([1, 1, 2])):
+            init[u] = "I"
+        K = 3
+        dur = [[rng.randint(200, 1200) for _ in range(K)] for _ in range(n)]
+        uns = rng.random() < unsorted_frac
+        delay = []
+        for u in range(n):
+            row = []
+            for v in range(n):
+                cell = []
+                for k in range(K):
+                    if u == v or not adj[u][v]:
+                        cell.append([])
+                        continue
+                    m = rng.choice([0, 1, 1, 2, 3])
+                    ds = sorted(rng.sample(range(1, dur[u][k]), min(m, dur[u][k] - 1)))
+                    if uns and len(ds) > 1:
+                        rng.shuffle(ds)
+                    cell.append(ds)
+                row.append(cell)
+            delay.append(row)
+        tmin = rng.choice([0, 0, 500])
+        tmax = tmin + rng.randint(1200, 4200)
+        srt = 1
+        for u in range(n):
+            for v in range(n):
+                for k in range(K):
+                    if delay[u][v][k] != sorted(delay[u][v][k]):
+                        srt = 0
+        out.append({"n": n, "adj": adj, "init": init, "k": K, "dur": dur, "delay": delay,
+                    "tmin": tmin, "tmax": tmax, "sorted": srt})
+    return out
